@@ -503,8 +503,8 @@ func (c *Ctx) c01Deletes() {
 	r := c.R
 	uid := c.P.ConstString("", "SessionKey")
 	allowed := map[string]string{
-		"ab.DelKnownSession":                      "exported helper (callers decide)",
-		"(*ab/logout.Logout).Logout":              "logout",
+		"ab.DelKnownSession":                     "exported helper (callers decide)",
+		"(*ab/logout.Logout).Logout":             "logout",
 		"(ab/expire.expireMiddleware).ServeHTTP": "idle expiry",
 	}
 	for _, fn := range c.P.Funcs {
